@@ -1,5 +1,6 @@
 import MimeModel.Model.Detect
 import MimeModel.Model.MediaType
+import MimeModel.Model.Reader
 import MimeModel.Gen.Tree
 import MimeModel.Spec.All
 /-
@@ -137,6 +138,8 @@ def handle (line : String) : String :=
   match line.splitOn " => " with
   | [lhs, goRes] =>
     let f := lhs.splitOn " "
+    if goRes == "TIMEOUT" then "SPEC C01:operation-did-not-return" else
+    if goRes == "PANIC" && f.head? != some "det" then "SPEC C01:operation-panicked" else
     match f with
     | ["det", name, hx, lim] =>
       match unhex hx, parseNat lim with
@@ -149,7 +152,8 @@ def handle (line : String) : String :=
             | _ => true
           if !modelled then "SKIP unmodelled" else
           let m := showOB (Cust.detEval (fun _ _ _ => false) d raw l)
-          if m == goRes then "OK" else s!"DIFF det:{name} model={m}"
+          let sp := if goRes == "PANIC" || goRes == "TIMEOUT" then s!" ; SPEC C01:detector-{goRes}" else ""
+          if m == goRes then "OK" else s!"DIFF det:{name} model={m}" ++ sp
       | _, _ => "BAD args"
     | ["walk", hx, lim, verd, toks, inst] =>
       match unhex hx, parseNat lim, parseTags toks, parseInst inst with
@@ -298,6 +302,51 @@ def handle (line : String) : String :=
         let all := [d, sp].filter (· != "")
         if all.isEmpty then "OK" else String.intercalate " ; " all
       | _, _ => "BAD args"
+    | ["reader", lim, hx, chunks, ewd, errAt] =>
+      match parseNat lim, unhex hx with
+      | some l, some data =>
+        let cs : List Nat := if chunks == "~" then [] else (chunks.splitOn ",").filterMap String.toNat?
+        let ea : Option Nat := if errAt.startsWith "-" then none else errAt.toNat?
+        let sc : Reader.Script := { content := data, chunks := cs, eofWithData := ewd == "1", errAt := ea }
+        let (inp, n) := Reader.detectReaderInput sc l
+        match goRes.splitOn " " with
+        | [ecls, deliv, rres, dres] =>
+          let mErr := if inp.isNone then "sentinel" else "nil"
+          let d1 := if mErr == ecls && toString n == deliv then "" else s!"DIFF reader model={mErr} {n}"
+          let octet := bhex mimeOctet ++ "|-/" ++ bhex mimeOctet
+          -- specification clauses on the implementation's own result
+          let s1 := if l != 0 && deliv.toNat?.getD 0 > l then "SPEC C05:consumed-more-than-limit" else ""
+          let hdrLen := if l == 0 then data.length else min l data.length
+          let mustFail := match ea with | some e => e < hdrLen | none => false
+          let s2 := if mustFail && (ecls != "sentinel" || rres != octet) then "SPEC C05:read-error-not-surfaced" else ""
+          let s3 := if ecls == "nil" && !mustFail then
+              (let expect := if ea.isSome && l != 0 then none else some dres
+               match expect with
+               | some d => if rres == d then "" else "SPEC C05:reader-disagrees-with-detect"
+               | none =>
+                 -- error offset at or beyond the header: the header is complete, same answer
+                 if rres == dres then "" else "SPEC C05:reader-disagrees-with-detect")
+            else ""
+          let s4 := if ecls != "nil" && rres != octet then "SPEC C02:error-result-not-octet-stream" else ""
+          let s5 := if ecls != "nil" && ecls != "sentinel" then "SPEC C05:unexpected-error-class" else ""
+          let s6 := if ecls == "sentinel" && !mustFail && ea.isNone then "SPEC C05:spurious-error" else ""
+          let all := [d1, s1, s2, s3, s4, s5, s6].filter (· != "")
+          if all.isEmpty then "OK" else String.intercalate " ; " all
+        | _ => "SPEC C01:no-result(" ++ goRes ++ ")"
+      | _, _ => "BAD args"
+    | ["file", _lim, _hx] =>
+      match goRes.splitOn " " with
+      | [ecls, _, rres, dres] =>
+        if ecls != "nil" then "SPEC C05:file-error-on-regular-file"
+        else if rres != dres then "SPEC C05:file-disagrees-with-detect" else "OK"
+      | _ => "SPEC C01:no-result(" ++ goRes ++ ")"
+    | ["filebad", _] =>
+      let octet := bhex mimeOctet ++ "|-/" ++ bhex mimeOctet
+      match goRes.splitOn " " with
+      | [ecls, rres] =>
+        if ecls != "error" then "SPEC C05:open-error-not-surfaced"
+        else if rres != octet then "SPEC C02:error-result-not-octet-stream" else "OK"
+      | _ => "SPEC C01:no-result(" ++ goRes ++ ")"
     | ["treeeq"] =>
       let m := String.intercalate " " (dumpTree Gen.builtin)
       if m == goRes then "OK" else s!"DIFF tree model={m}"
